@@ -216,6 +216,41 @@ theorem C13_avro (t : DT) (hv : t.Valid) :
   · intro hn
     simp only [viaAvro, hmic, fromInstant, if_neg hn, Option.bind_none]
 
+/-- Epoch input: an integer number of seconds becomes the UTC datetime of exactly that instant (micros = n·10^6);
+    numbers outside years 1..9999 are refused (CPython: ValueError / OverflowError), never wrapped. -/
+theorem C13_epoch (n : Int) :
+    (∀ r, construct (.epoch n) = some r → r.tz = .utc ∧ r.Valid ∧ toMicros r = n * 1000000) ∧
+    (¬ (0 ≤ n * 1000000 + 62135596800000000 ∧ n * 1000000 + 62135596800000000 < 315537897600000000) →
+      construct (.epoch n) = none) := by
+  constructor
+  · intro r h
+    simp only [construct, fromMicros, fromInstant] at h
+    split at h
+    · rename_i hr
+      simp only [Option.some.injEq] at h
+      subst h
+      refine ⟨rfl, ofWallUs_valid _ _ (by omega) trivial, ?_⟩
+      have hoff : (ofWallUs (n * 1000000 + 62135596800000000).toNat .utc).tz.off = 0 := rfl
+      have hw := wallUs_ofWallUs (n * 1000000 + 62135596800000000).toNat .utc
+      unfold toMicros instant
+      rw [hw, hoff]
+      omega
+    · cases h
+  · intro hn
+    simp only [construct, fromMicros, fromInstant, if_neg hn]
+
+/-- End to end: whatever the input form, a constructed value with a printable offset keeps its wall clock and
+    UTC offset through the binary stream, JSON and SQLite, and its instant (as a UTC value) through Avro whenever
+    that instant lies in years 1..9999. -/
+theorem C13_all_formats (inp : Input) (t : DT) (hin : ∀ x, inp = .obj x → x.Valid) (h : construct inp = some t)
+    (hp : OffsetPrintable t) :
+    viaBinary t = some (fixedView t) ∧ viaJson t = some (fixedView t) ∧ viaSqlite t = some (fixedView t) ∧
+    (0 ≤ instant t → instant t < 315537897600000000 →
+      ∃ r, viaAvro t = some r ∧ r.tz = .utc ∧ r.Valid ∧ instant r = instant t) := by
+  have hv := C13_construct_valid inp t hin h
+  have haw := C13_aware inp t h
+  exact ⟨(C13_binary t hv haw hp).1, C13_json t hv haw hp, C13_sqlite t hv haw hp, (C13_avro t hv).1⟩
+
 /-- A UTC value is determined by its instant: two valid UTC datetimes with the same instant are equal
     (so "the UTC-normalised value" of an instant is unique). -/
 theorem C13_utc_unique (a b : DT) (ha : a.Valid) (hb : b.Valid) (hau : a.tz = .utc) (hbu : b.tz = .utc)
